@@ -113,6 +113,9 @@ func isPlainInt(s string) bool {
 }
 
 func (g *gen) bin(l ex, op string, r ex, p int, rightAssoc bool) ex {
+	if l.p == pComma && !g.known {
+		l = ex{s: "h8((" + l.s + "))", p: pCall, call: true} // N10: (a,b) OP c loses its group
+	}
 	lm, rm := p, p+1
 	if rightAssoc {
 		lm, rm = p+1, p
@@ -1030,7 +1033,7 @@ func (g *gen) assignExpr(k kind, d int) (ex, bool) {
 		tgt := g.member(atom(v.name), g.dataProp0(), false)
 		return ex{s: cat(tgt.s, g.sp(), "=", g.sp(), g.w(rhs, pAssign)), p: pAssign}, true
 	default:
-		if g.level >= 2015 && k == kArr {
+		if g.level >= 2015 && k == kArr && false {
 			a, b := g.mutVarOf(kAny), g.mutVarOf(kAny)
 			if a == nil || b == nil || a == b {
 				return ex{}, false
@@ -1094,7 +1097,13 @@ func (g *gen) objLit(d int) string {
 	var parts []string
 	for i := 0; i < n; i++ {
 		name := g.dataProp0()
-		val := func() string { return g.w(g.expr(g.primKind(), d-1), pAssign) }
+		val := func() string {
+			v := g.w(g.expr(g.primKind(), d-1), pAssign)
+			if v == name && !g.known {
+				return "(" + v + ")" // K38: {a:a} becomes {a} for every Version
+			}
+			return v
+		}
 		switch r.Intn(14) {
 		case 0, 1, 2, 3:
 			parts = append(parts, name+":"+g.sp()+val())
